@@ -13,6 +13,7 @@ use scrut::executors::context::ContextBuilder;
 use scrut::executors::executor::Executor;
 use scrut::executors::stateful_executor::StatefulExecutor;
 use scrut::output::ExitStatus;
+use scrut::parsers::parser::Parser;
 use scrut::testcase::TestCase;
 use serde_json::json;
 use serde_json::Value;
@@ -32,7 +33,7 @@ fn literal_of(tok: &str) -> Option<String> {
 }
 
 fn octal_of(tok: &str) -> &'static str {
-    match tok { "a" => "\\141", "CR" => "\\015", "LF" => "\\012", "E" => "\\033[1m", "NUL" => "\\000", "HI" => "\\351", other => tool_error(&format!("unknown token {other}")) }
+    match tok { "a" => "\\141", "CR" => "\\015", "LF" => "\\012", "E" => "\\033[1m", "NUL" => "\\000", "HI" => "\\351", "GT" => "\\076", "SP" => "\\040", other => tool_error(&format!("unknown token {other}")) }
 }
 
 /// shell words that write the payload: bytes as octal escapes, special texts as single-quoted literals (so that what
@@ -62,7 +63,7 @@ pub fn tokens_of(bytes: &[u8]) -> Vec<String> {
             if bytes[i..].starts_with(lit.as_bytes()) { out.push(tok.clone()); i += lit.len(); continue 'outer; }
         }
         if bytes[i..].starts_with(b"\x1b[1m") { out.push("E".into()); i += 4; continue; }
-        out.push(match bytes[i] { b'a' => "a".into(), b'\r' => "CR".into(), b'\n' => "LF".into(), 0 => "NUL".into(), 0xE9 => "HI".into(), b => format!("#{b}") });
+        out.push(match bytes[i] { b'a' => "a".into(), b'\r' => "CR".into(), b'\n' => "LF".into(), 0 => "NUL".into(), 0xE9 => "HI".into(), b'>' => "GT".into(), b' ' => "SP".into(), b => format!("#{b}") });
         i += 1;
     }
     out
@@ -92,6 +93,23 @@ fn one(id: u64, v: &Value, bash: &PathBuf) -> Value {
         if let Some(b) = tri("strip") { config.strip_ansi_escaping = Some(b); }
         let mut expr = cmds.join("; ");
         if t["tail"] == json!("backslash") { expr.push_str(" \\"); }
+        if t["tail"] == json!("heredoc") {
+            // the payload is the text of a here-document; the expression is what the real parser reads from the document
+            let body: String = strs(&t["payload"]).iter().map(|x| match x.as_str() { "GT" => ">", "SP" => " ", "a" => "a", "LF" => "\n", o => tool_error(&format!("heredoc token {o}")) }).collect();
+            let text_lines: Vec<&str> = body.trim_end_matches('\n').split('\n').collect();
+            let parsed = if exec == "md" {
+                let mut d = String::from("# t\n\n```scrut\n$ cat <<EOF\n");
+                for l in &text_lines { d.push_str(&format!("> {l}\n")); }
+                d.push_str("> EOF\n```\n");
+                guarded(|| crate::mdmod::md_parser().parse(&d))
+            } else {
+                let mut d = String::from("t\n  $ cat <<EOF\n");
+                for l in &text_lines { d.push_str(&format!("  > {l}\n")); }
+                d.push_str("  > EOF\n");
+                guarded(|| crate::crammod::cram_parser().parse(&d))
+            };
+            expr = match parsed { Ok(Ok((_c, ts))) if ts.len() == 1 => ts[0].shell_expression.clone(), _ => "echo the-document-did-not-parse-to-one-test; exit 99".to_string() };
+        }
         commands.push(expr.clone());
         tcs.push(TestCase { title: format!("t{}", k + 1), shell_expression: expr, expectations: vec![], exit_code: None, line_number: k + 1, config });
     }
